@@ -10,6 +10,38 @@ import TsVerif.C07.Walks
 > Once every handle has been released, every allocation made through the library's allocator has
 > been freed exactly once.
 
+## Clause map (phrase of the property text → theorems)
+
+Marks: **proved** = kernel-checked statement about a Lean model of the bounds / ownership LOGIC, tied
+to the real static functions by correspondence through the unity build; **judged only** = decided on
+real executions by the Lean judge; **searched** = a dynamic detector that can only find violations;
+**not expressible** = a behaviour no Lean model of this technique can exhibit.  C07 is PARTIAL by nature.
+
+| # | phrase | theorems | mark |
+|---|---|---|---|
+| 1 | "for any sequence of API calls that respects the documented contracts (any source bytes, any query source, any edit with start ≤ old end, any ranges accepted by the setter, any interleaving of parse, edit, copy, query, cursor, cancel, reset and delete)" | none over API histories | **judged only / searched**: ~1000 adversarial histories per quick run (11 kinds × 8–10 languages), range lists only if `ts_lexer_set_included_ranges` accepts them |
+| 2 | "performs no out-of-bounds … access" | per ported array walk: `changed_ranges_reads_in_bounds`, `lexer_advance_reads_in_bounds` (both were violated as found: `…_asis_reads_out_of_bounds`), `add_link_accesses_in_bounds(_graph)`, `stack_links_bounded`, `cap_accesses_in_bounds`, `cap_history_in_bounds`, `cap_acquired_id_in_bounds`, `consumed_read_in_bounds`, `step_captures_bounded`, `array_ops_in_bounds` family, `can_inline_fits` | **proved for these walks only**; every other index computation (children-before-header layout, iterators, serialization/debug buffers, lexer chunk decoding) is **searched**: guard-page allocator (quick, `cr`/`lx`), ASan (thorough) |
+| 3 | "… or use-after-free access" | ownership logic: C08 (`persistence`, `rc_invariant`, `heap_empty_after_last_delete`), `pool_alloc_ok`, `pool_free_ok`, `capture_acquire_ok/release_ok/reset_ok` | **not expressible** as such (a model has no dangling pointers); **searched**: poisoning always-moving allocator in both explorers (quick), guard allocator keeps freed blocks inaccessible (`cr`/`lx`), ASan (thorough) |
+| 4 | "no undefined behaviour" | none | **not expressible**; **searched**: fresh memory poisoned + dump judge for flags only a scanner may set (uninitialised reads), UBSan (thorough); data races: not modelled, C08's 16-thread probes and threaded-vs-sequential runs (no TSan) |
+| 5 | "and trips no internal assertion" | none | **judged only**: the runtime is built with assertions on; any abort/signal of an explorer is a violation with the history as replay |
+| 6 | "once every handle has been released, every allocation made through the library's allocator has been freed exactly once" | parts: `pool_alloc_ok`, `pool_free_ok`, `capture_*_ok`, `ess_roundtrip`, C08 `heap_empty_after_last_delete`; OPEN `no_leak_no_double_free` for full API histories | **judged only** for histories: counting allocator balance = 0 per history, free of a non-live block aborts (double free), external-scanner instance counter; LSan (thorough) |
+
+## What the models cannot exhibit, and which dynamic search covers it
+
+| runtime behaviour | why no theorem | quick tier | thorough tier |
+|---|---|---|---|
+| use after free through a pointer into a REALLOCATED array (`capture_list_pool`, `Array` growth) | models have values, not addresses | realloc always moves + freed memory poisoned 0xA5 ⇒ crash or garbage (`qcursor`, all histories) | ASan |
+| use after free / double free of a subtree or stack node | same | poison + size header: free of a non-live block aborts; C08 `ref_count = owners` judge on dumps | ASan |
+| out-of-bounds read/write outside the ported walks | not ported | guard pages for `cr`/`lx` only | ASan (unity build + `fuzz`, corpus lines) |
+| in-struct overflow (`links[8]`, `capture_ids[3]`) | invisible to sanitizers too | `bits` probe + correspondence (`al`, 4-capture patterns) | — |
+| uninitialised read | no indeterminate values in Lean | 0xA5-filled fresh memory + dump judge | UBSan (bool loads), ASan does not see it |
+| data race | no memory model | 16-thread probes (`cunit_c08`), threaded vs sequential | — (no TSan) |
+| signed overflow, misalignment, invalid shifts | no C semantics | — | UBSan |
+| leak | histories not modelled | allocator balance per history, scanner instance counter | LSan |
+| non-termination (not a C07 clause) | — | explorer timeout ⇒ "died or hung" with the history | — |
+
+## Theorem index by clause (older table)
+
 **What is and is not proved.**  Memory safety and absence of undefined behaviour are properties of
 the *C execution*; no Lean model here exhibits an out-of-bounds pointer, a stale `TSNode`, a
 misaligned or uninitialised read or a signed overflow, so no theorem below (or anywhere in this
